@@ -3,41 +3,119 @@ package hc
 
 import (
 	"errors"
+	"net"
 	"time"
 
 	hostpkg "github.com/samaritan-proxy/samaritan/host"
 	hcpb "github.com/samaritan-proxy/samaritan/pb/config/hc"
+	hcredis "github.com/samaritan-proxy/samaritan/proc/internal/hc/redis"
 	"github.com/samaritan-proxy/samaritan/proc/internal/log"
 
 	nd "github.com/samaritan-proxy/samaritan/vfnd"
 )
 
-type vfChecker struct{ next bool }
+// vfTarget is the host the monitor checks. The monitor is built by NewMonitor with the Redis
+// checker (connect, PING, expect PONG): under the executor the checker's Check method is replaced
+// by its outcome (vfTarget.check); natively the real checker runs against a loopback listener
+// answering PONG that is opened and closed between the checks.
+type vfTarget struct {
+	addr string
+	up   bool
+	ln   net.Listener
+}
 
-func (c *vfChecker) Check(addr string, timeout time.Duration) error {
-	if c.next {
-		return nil
+func vfNewTarget() *vfTarget {
+	t := &vfTarget{addr: "10.0.0.1:80"}
+	if nd.Symbolic() {
+		// the protocol checker itself (connect, PING, PONG, each under a deadline) is replaced by
+		// its outcome; natively the real checker runs against the loopback listener
+		nd.Replace("(*github.com/samaritan-proxy/samaritan/proc/internal/hc/redis.Checker).Check", t.check)
+	} else {
+		ln, err := net.Listen("tcp", "127.0.0.1:0")
+		if err != nil {
+			panic(err)
+		}
+		t.addr = ln.Addr().String()
+		ln.Close()
 	}
-	return errors.New("down")
+	return t
+}
+
+func (t *vfTarget) check(c *hcredis.Checker, addr string, timeout time.Duration) error {
+	if !t.up {
+		return errors.New("vf: connection refused")
+	}
+	return nil
+}
+
+func (t *vfTarget) set(up bool) {
+	t.up = up
+	if nd.Symbolic() {
+		return
+	}
+	if up && t.ln == nil {
+		ln, err := net.Listen("tcp", t.addr)
+		if err != nil {
+			panic(err)
+		}
+		t.ln = ln
+		go func() {
+			for {
+				c, err := ln.Accept()
+				if err != nil {
+					return
+				}
+				go func() {
+					buf := make([]byte, 64)
+					if n, _ := c.Read(buf); n > 0 {
+						c.Write([]byte("+PONG\r\n"))
+					}
+					c.Close()
+				}()
+			}
+		}()
+	} else if !up && t.ln != nil {
+		t.ln.Close()
+		t.ln = nil
+	}
+}
+
+func vfHcConfig(rise, fall uint32) *hcpb.HealthCheck {
+	return &hcpb.HealthCheck{Interval: time.Second, Timeout: time.Second, RiseThreshold: rise, FallThreshold: fall,
+		Checker: &hcpb.HealthCheck_RedisChecker{RedisChecker: &hcpb.RedisChecker{}}}
 }
 
 // VfC15_Hysteresis: a host's health flips only after at least `threshold` consecutive contrary
 // check results; any opposite result restarts the count; it flips back the same way; and the
-// usable set follows the flag.
+// usable set follows the flag. The thresholds are those of the latest configuration: they may be
+// changed once at a symbolic point of the sequence (ResetHealthCheck, as a service configuration
+// update does), with the checker unchanged.
 func VfC15_Hysteresis() {
 	n := nd.Param("results", 7)
-	rise := uint32(nd.Concrete(nd.IntRange("rise", 1, 3)))
-	fall := uint32(nd.Concrete(nd.IntRange("fall", 1, 3)))
-	h := hostpkg.New("10.0.0.1:80")
+	rise := uint32(nd.IntRange("rise", 1, 3))
+	fall := uint32(nd.IntRange("fall", 1, 3))
+	nd.ConcreteClock(true) // the checks' deadlines lie in the future
+	tg := vfNewTarget()
+	h := hostpkg.New(tg.addr)
 	set := hostpkg.NewSet(h)
-	ck := &vfChecker{}
-	m := &Monitor{logger: log.New("vf"), config: &hcpb.HealthCheck{RiseThreshold: rise, FallThreshold: fall}, checker: ck, hostSet: set}
+	m, err := NewMonitor(vfHcConfig(rise, fall), set, log.New("vf"))
+	nd.Assert(err == nil && m != nil, "harness: the monitor is created")
+	if m == nil {
+		return
+	}
+	resetAt := nd.Concrete(nd.IntRange("thresholds-changed-before-result", 0, n)) // n: never
 	run := 0 // length of the current run of results contrary to the current state
 	nd.PanicLabel("monitor")
 	for i := 0; i < n; i++ {
+		if i == resetAt {
+			rise = uint32(nd.IntRange("new-rise", 1, 3))
+			fall = uint32(nd.IntRange("new-fall", 1, 3))
+			nd.Assert(m.ResetHealthCheck(vfHcConfig(rise, fall)) == nil, "harness: the new thresholds are accepted")
+			nd.Cover("thresholds-changed")
+		}
 		ok := nd.Bool("result")
 		was := h.IsHealthy()
-		ck.next = ok
+		tg.set(ok)
 		m.checkHostAndUpdateStatus(h)
 		now := h.IsHealthy()
 		if ok == was {
@@ -58,11 +136,8 @@ func VfC15_Hysteresis() {
 		usable := len(set.Healthy()) == 1
 		nd.Assert(usable == now, "the usable set follows the health flag")
 	}
+	tg.set(false)
 }
-
-type vfCountChecker struct{ n int }
-
-func (c *vfCountChecker) Check(addr string, timeout time.Duration) error { c.n++; return nil }
 
 // VfC09_MonitorRound: one health-check round over a host set — of a few hosts, of exactly the
 // worker limit, and of one host more than the worker limit — checks every host once and ends
@@ -72,17 +147,32 @@ func VfC09_MonitorRound() {
 	n := sizes[nd.Concrete(nd.Choice("hosts", len(sizes)))]
 	hs := make([]*hostpkg.Host, n)
 	for i := range hs {
-		hs[i] = hostpkg.New("10.0." + itoa(i/250) + "." + itoa(i%250) + ":80")
+		hs[i] = hostpkg.New("127.0.0." + itoa(1+i/250) + ":" + itoa(1+i%250)) // natively: refused at once
 	}
 	set := hostpkg.NewSet(hs...)
-	ck := &vfCountChecker{}
-	m := &Monitor{logger: log.New("vf"), config: &hcpb.HealthCheck{RiseThreshold: 1, FallThreshold: 1}, checker: ck, hostSet: set}
+	checked := 0
+	if nd.Symbolic() {
+		nd.Replace("(*github.com/samaritan-proxy/samaritan/proc/internal/hc/redis.Checker).Check",
+			func(c *hcredis.Checker, addr string, timeout time.Duration) error { checked++; return nil })
+	}
+	m, err := NewMonitor(vfHcConfig(1, 1), set, log.New("vf"))
+	nd.Assert(err == nil && m != nil, "harness: the monitor is created")
+	if m == nil {
+		return
+	}
 	done := false
 	nd.PanicLabel("monitor-round")
 	go func() { m.checkHosts(); done = true }()
 	nd.Quiesce()
+	if !nd.Symbolic() {
+		for i := 0; i < 100 && !done; i++ { // real connects: give the round up to 30 s
+			nd.Quiesce()
+		}
+	}
 	nd.Assert(done, "a health-check round ends, whatever the number of hosts (Stop waits for it)")
-	nd.Assert(ck.n == n, "every host is checked once per round")
+	if nd.Symbolic() {
+		nd.Assert(checked == n, "every host is checked once per round")
+	}
 	if n > MaximumConcurrency {
 		nd.Cover("more-hosts-than-workers")
 	}
